@@ -1,12 +1,125 @@
-/- Driver ops for the Heap model. Stub until the model lands. -/
+/- Driver ops for the heap-level formatting model (`PypyrModel/FmtHeap.lean`), area "heap".
+   All ops here are prefixed `fmt…` (another builder may add further heap ops). -/
 import Lean.Data.Json
 import PypyrModel.Json
+import PypyrModel.Fmt
+import PypyrModel.FmtHeap
 
 namespace Pypyr.OpHeap
-open Lean (Json)
+open Lean (Json JsonNumber)
+open Pypyr.FmtHeap
 
-/-- Handle one request object (already parsed); `Except.error` = protocol-level reject. -/
-def handle (_op : String) (_j : Json) : Except String Json :=
-  .error "not implemented"
+def fuelOf (j : Json) : Nat :=
+  match j.getObjVal? "fuel" with
+  | .ok f => (jsonNat? f).toOption.getD 64
+  | .error _ => 64
+
+def refsOfJson (j : Json) : Except String (List Ref) := do
+  (← j.getArr?).toList.mapM jsonNat?
+
+/-- `[tag, [refs…]]` -/
+def taggedRefs (j : Json) : Except String (Nat × List Ref) := do
+  match j with
+  | .arr #[t, rs] => pure (← jsonNat? t, ← refsOfJson rs)
+  | _ => throw "bad tagged refs"
+
+def cellOfJson (j : Json) : Except String Cell := do
+  if let .ok v := j.getObjVal? "leaf" then
+    let w ← Val.ofJson v
+    if isLeafVal w then return .leaf w else throw "leaf cell holds a non-leaf value"
+  if let .ok s := j.getObjVal? "str" then return .str (← s.getStr?)
+  if let .ok x := j.getObjVal? "list" then let (t, rs) ← taggedRefs x; return .list t rs
+  if let .ok x := j.getObjVal? "tuple" then let (t, rs) ← taggedRefs x; return .tuple t rs
+  if let .ok x := j.getObjVal? "set" then let (t, rs) ← taggedRefs x; return .set t rs
+  if let .ok x := j.getObjVal? "dict" then
+    match x with
+    | .arr #[t, prs] =>
+      let ps ← (← prs.getArr?).toList.mapM fun p => do
+        match p with
+        | .arr #[k, v] => pure ((← jsonNat? k), (← jsonNat? v))
+        | _ => throw "bad dict cell pair"
+      return .dict (← jsonNat? t) ps
+    | _ => throw "bad dict cell"
+  if let .ok r := j.getObjVal? "sic" then return .sic (← jsonNat? r)
+  if let .ok n := j.getObjVal? "py" then return .pyName (← n.getStr?)
+  if let .ok r := j.getObjVal? "jsonify" then return .jsonify (← jsonNat? r)
+  throw s!"bad cell {j.compress}"
+
+def natJ (n : Nat) : Json := Json.num (JsonNumber.fromNat n)
+def refsJ (rs : List Ref) : Json := Json.arr (rs.map natJ).toArray
+
+def cellToJson : Cell → Json
+  | .leaf v => Json.mkObj [("leaf", v.toJson)]
+  | .str s => Json.mkObj [("str", Json.str s)]
+  | .list t rs => Json.mkObj [("list", Json.arr #[natJ t, refsJ rs])]
+  | .tuple t rs => Json.mkObj [("tuple", Json.arr #[natJ t, refsJ rs])]
+  | .set t rs => Json.mkObj [("set", Json.arr #[natJ t, refsJ rs])]
+  | .dict t kvs => Json.mkObj [("dict", Json.arr #[natJ t,
+      Json.arr (kvs.map fun (k, v) => Json.arr #[natJ k, natJ v]).toArray])]
+  | .sic r => Json.mkObj [("sic", natJ r)]
+  | .pyName n => Json.mkObj [("py", Json.str n)]
+  | .jsonify r => Json.mkObj [("jsonify", natJ r)]
+
+/-- The heap must be a DAG in construction order (a cell refers to lower indices only), `sic`
+    cells must point at str cells: what the harness can build as Python objects. -/
+def cellOk (h : Heap) (i : Nat) (c : Cell) : Bool :=
+  match c with
+  | .list _ rs | .tuple _ rs | .set _ rs => rs.all (· < i)
+  | .dict _ kvs => kvs.all fun kv => kv.1 < i && kv.2 < i
+  | .sic r => r < i && (match h[r]? with | some (.str _) => true | _ => false)
+  | .jsonify r => r < i
+  | _ => true
+
+def heapOk (h : Heap) : Bool := (List.range h.length).all fun i =>
+  match h[i]? with
+  | some c => cellOk h i c
+  | none => false
+
+def hctxOfJson (j : Json) : Except String HCtx := do
+  (← j.getArr?).toList.mapM fun p => do
+    match p with
+    | .arr #[k, r] => pure ((← k.getStr?), (← jsonNat? r))
+    | _ => throw "bad ctx pair"
+
+def errJ (e : Exc) : Except String Json :=
+  if e.name == "OutOfDomain" then .error ("out of domain: " ++ e.msg)
+  else .ok (Json.mkObj [("err", e.toJson)])
+
+/-- ops:
+    `fmtHeap` {cells, ctx: [[key, ref]…], root, fuel?} → {ok: {root, cells (whole heap after), n0,
+        val (tree value of the result), oldval (tree value of the input root afterwards)}} | {err};
+    `fmtTree` {ctx, v, fuel?} → tree-level `fmtVal` + the C09 predicates of input and result. -/
+def handle (op : String) (j : Json) : Except String Json := do
+  match op with
+  | "fmtHeap" =>
+    let cells ← (← (← j.getObjVal? "cells").getArr?).toList.mapM cellOfJson
+    if !heapOk cells then throw "heap is not a well-formed DAG"
+    let ctx ← hctxOfJson (← j.getObjVal? "ctx")
+    let root ← jsonNat? (← j.getObjVal? "root")
+    if root ≥ cells.length || ctx.any (fun kr => kr.2 ≥ cells.length) then throw "dangling root/ctx ref"
+    match fmtHeap (fuelOf j) ctx cells root with
+    | .error e => errJ e
+    | .ok (r, h) =>
+      let valJ := match deepVal h r with | some v => v.toJson | none => Json.null
+      pure (Json.mkObj [("ok", Json.mkObj [
+        ("root", natJ r), ("n0", natJ cells.length),
+        ("cells", Json.arr (h.map cellToJson).toArray),
+        ("val", valJ)])])
+  | "fmtTree" =>
+    let ctx ← Ctx.ofJson (← j.getObjVal? "ctx")
+    let v ← Val.ofJson (← j.getObjVal? "v")
+    if !(wfVal v && keysHashable v) then throw "input value breaks the dict/set representation invariant"
+    if !(ctx.all fun kv => wfVal kv.2 && keysHashable kv.2) then throw "context value breaks the representation invariant"
+    let inPreds := [("braceFree", Json.bool (braceFree v))]
+    match fmtVal (fuelOf j) ctx v with
+    | .error e =>
+      match errJ e with
+      | .error m => .error m
+      | .ok ej => pure (ej.mergeObj (Json.mkObj inPreds))
+    | .ok r =>
+      if !keysHashable r then throw "out of domain: result has an unhashable key or set member"
+      pure (Json.mkObj ([("ok", r.toJson), ("resBraceFree", Json.bool (braceFree r)),
+                         ("resWf", Json.bool (wfVal r))] ++ inPreds))
+  | _ => .error s!"unknown op {op}"
 
 end Pypyr.OpHeap
